@@ -109,6 +109,38 @@ Definition law_table (tbl : list Z) (queries : list (Z * Z)) : bool :=
       forallb (fun p => negb (a <? p) || (r <=? p)) tbl) queries
   end.
 
+(* ---------------- cron: the zone the schedule is evaluated in ---------------- *)
+
+(* observed: the string formatSchedule produced (as is / "TZ=<z> <schedule>"),
+   whether validateTZandSchedule accepted the CronJob, and - when it did and the
+   parsed schedule is a wall-clock one - the Location of the parsed schedule.
+   spec.timeZone, when it is set and loads, is the zone for EVERY schedule
+   kind; an embedded TZ=/CRON_TZ= wins (upstream warns and ignores the field);
+   no zone at all means the controller's local zone; a zone that does not load
+   is refused *)
+Definition zone_eqb (a b : zone) : bool :=
+  match a, b with
+  | ZLocal, ZLocal => true
+  | ZNamed x, ZNamed y => x =? y
+  | _, _ => false
+  end.
+
+Definition law_zone (tz : tzspec) (s : sstr) (fmt : fmt_res) (valid : bool) (zn : option zone) : bool :=
+  let want_zone z :=
+    match ss_kind s, valid with
+    | KEvery, _ => match zn with None => true | Some _ => false end
+    | _, false => match zn with None => true | Some _ => false end
+    | _, true => match zn with Some o => zone_eqb o z | None => false end
+    end in
+  Bool.eqb valid (match tz with TzInvalid => false | _ => true end) &&
+  match ss_embedded s, tz with
+  | Some e, _ => match fmt with FmtAsIs => true | _ => false end && want_zone (ZNamed e)
+  | None, TzLoads z => match fmt with FmtPrefixed z' => z' =? z | _ => false end && want_zone (ZNamed z)
+  | None, TzNil => match fmt with FmtAsIs => true | _ => false end && want_zone ZLocal
+  | None, TzInvalid => match fmt with FmtAsIs => true | _ => false end &&
+                       match zn with None => true | Some _ => false end
+  end.
+
 (* ---------------- cron: one reconcile, as observed ---------------- *)
 
 Record robs := mkObs {
@@ -145,6 +177,7 @@ Definition law_reconcile (tbl : list Z) (o : robs) : bool :=
   let sp := b_spec o in
   (* never while suspended; at most one start per reconcile *)
   (if c_suspend sp then match b_creates o with [] => true | _ => false end else true) &&
+  (if c_tz_ok sp then true else match b_creates o with [] => true | _ => false end) &&
   (length (b_creates o) <=? 1)%nat &&
   (* the started time is the latest schedule point after the previous run
      (or creation, raised by the deadline) and not after now; its name is new *)
